@@ -33,11 +33,24 @@ def best_scan(fit, pops):
     return min(vals) if vals else None
 
 
-def make(kind, rng):
-    fit = GenomeFitness(nan_mod=rng.choice([0, 5, 7]), inf_mod=rng.choice([0, 11]))
+class SpreadFitness(GenomeFitness):
+    """genome-determined fitness with (almost) no ties: small populations then carry oversize non-dominated fronts"""
+
+    def value(self, values):
+        s = sum((i + 1) * int(v) for i, v in enumerate(values))
+        if self.nan_mod and s % self.nan_mod == 3:
+            return float("nan")
+        return float((s * 2654435761) % 1000003) / 1000003.0
+
+
+def make(kind, rng, small=False):
+    if small:
+        fit = SpreadFitness(nan_mod=rng.choice([0, 0, 13]), inf_mod=0)
+    else:
+        fit = GenomeFitness(nan_mod=rng.choice([0, 5, 7]), inf_mod=rng.choice([0, 11]))
     value_fn = lambda: int(np.random.randint(0, 10))
     gen = MultipleValueChromosomeGenerator(value_fn, rng.choice([3, 5]))
-    n = rng.choice([4, 6, 10])
+    n = rng.choice([3, 4, 6]) if small else rng.choice([4, 6, 10])
     ev = Evaluation(fit)
     if kind == "agefit":
         ea = AgeFitnessEA(ev, gen, SinglePointCrossover(), SinglePointMutation(value_fn), 0.4, 0.4, n, selection_size=rng.choice([2, 2, 3, 5]))
@@ -58,13 +71,15 @@ def run(ctx, rep):
         np.random.seed(seed)
         pyrandom.seed(seed)
         arch = rng.random() < 0.4
-        case = {"algorithm": kind, "seed": seed, "archipelago": arch}
+        small = t % 4 == 2          # tiny populations, tie-free fitness, long runs: the front regularly exceeds the target size
+        case = {"algorithm": kind, "seed": seed, "archipelago": arch, "small_tie_free": small}
         rep.case((kind, seed, arch), True)
         rep.count("algorithm", kind)
         rep.count("archipelago", arch)
+        rep.count("small_tie_free", small)
         with warnings.catch_warnings():
             warnings.simplefilter("ignore")
-            ea, gen, n, fit = make(kind, rng)
+            ea, gen, n, fit = make(kind, rng, small)
             hof = HallOfFame(rng.randrange(1, 5))
             if arch:
                 opt = SerialArchipelago(Island(ea, gen, n), num_islands=rng.randrange(2, 5), hall_of_fame=hof)
@@ -76,8 +91,10 @@ def run(ctx, rep):
             prev = None
             offered_best = None
             try:
-                for g in range(rng.randrange(3, 13)):
+                for g in range(rng.randrange(30, 61) if small else rng.randrange(3, 13)):
                     opt.evolve(1)
+                    if small and max(len(p) for p in pops()) > n:
+                        rep.count("oversize_population_generations")
                     cur = best_scan(fit, pops())
                     rep.count("generations")
                     if prev is not None and (cur is None or cur > prev):
